@@ -16,7 +16,7 @@ import specclient
 from parts import kfclass, parsetie
 from checks import C03
 
-SPEC = dict(gen=['tables', 'actions', 'lexdata', 'unicodecat'], props=['CalmVerif.Props.C05'],
+SPEC = dict(gen=['tables', 'actions', 'lexdata', 'unicodecat'], props=['CalmVerif.Props.C05', 'CalmVerif.Props.C05hdr'],
             drivers=['drv_parse', 'drv_spec'], audit='Audit/C05.lean')
 
 BEFORE = ['a', '1', "'s'", '/r/', 'this', 'null', 'true', 'a++', 'a--', '(a)', 'f(a)', 'a[0]', '[1]', '({})', 'x = {}', 'function(){}',
